@@ -19,7 +19,7 @@ import (
 
 func c14Gen(rt *rapid.T) wProg {
 	p := wProg{}
-	p.Cfg = wConfig{Users: 3, NoPush: gPct(rt, 50)}
+	p.Cfg = wConfig{Users: 3, NoPush: gPct(rt, 50), Root: gPct(rt, 35)}
 	p.Sess = append([]int(nil), gPick(rt, [][]int{{0, 0, 1, 1, 2}, {0, 1, 1, 2, 2}, {0, 0, 1, 2}, {0, 1, 2, 0, 1, 2}}, "layout")...)
 	kind := "new"
 	if gPct(rt, 25) {
@@ -65,8 +65,11 @@ func c14Gen(rt *rapid.T) wProg {
 			op = wOp{K: "del", S: s, T: "g0", A: "sub", U: rapid.IntRange(1, 2).Draw(rt, "tgt")}
 		case x < 88:
 			op = wOp{K: "set", S: s, T: topicFor(s), A: "mode", B: gPick(rt, []string{"JRWPS", "N", "JRWP"}, "want")}
-		case x < 96:
+		case x < 94:
 			op = wOp{K: "disc", S: s}
+		case x < 96:
+			// account suspension / reinstatement (acted on when the session is user 0 at root level)
+			op = wOp{K: "acc", S: s, U: rapid.IntRange(1, 2).Draw(rt, "tgt"), A: gPick(rt, []string{"susp", "ok"}, "status")}
 		default:
 			op = wOp{K: "note", S: s, T: topicFor(s), A: "kp"}
 		}
